@@ -631,7 +631,7 @@ def g_transpose(ctx, rng, i):
                 pass
 
 
-from .c09 import _tolerant  # noqa: E402
+_tolerant = core.tolerant
 
 g_getitem, g_getitem_structured, g_arith, g_point_arith, g_transpose = (_tolerant(f) for f in (g_getitem, g_getitem_structured, g_arith, g_point_arith, g_transpose))
 
